@@ -8,7 +8,9 @@ VOCAB = ['A', 'E', 'X', 'F', 'G', 'U', 'R', 'not', 'and', 'or', '-->', '~', '&',
          'false', 'p', 'q', 'r', '(', ')', '"a b"', 'Ap', 'andy', 'Uq', 'notp', 'EX', 'AG',
          '"x\\"y"', '""', '_1', '"and"', '"\\\\"', '"A G p"', '"a\\\\"', '"(p)"', '" x "', '"x "', '" "']
 JUNK = ['1', '$', '"', '\\', '-', '>', '->', '=>', '[', ']', 'é', '1p', '!', '.', ',', '\n', '\t',
-        '0', "'q'", '<->', '^', '@', '#', ';', '{', '}', '\x00']
+        '0', "'q'", '<->', '^', '@', '#', ';', '{', '}', '\x00'] + \
+    ['\u212a', '\u017f', '\u0130', '\u0131', 'p\u212a', '\u017fafe', '\u00df', '\u03b1', '\uff21', '\u0663', 'x\u00b2', '\u00aa',
+     '\u01c5', 'a\u0301', '\u2160', '\u00b5']
 
 # the exclusions the documentation spells out: (logic, text)
 DOCUMENTED_EXCLUSIONS = [
@@ -198,6 +200,10 @@ def run(ctx):
                  ' and '.join(['p'] * n), '(' + ' or '.join(['q'] * n) + ') and', 'p\n' * n, '~' * n + 'q' + '\n$']
     deep += ['p and\n\tq $', 'p\n\n and', '\n\n', '\t', 'p and "a\nb"', '"a\\"', '""', '"" and "\\\\"', '"', '"p', 'p"',
              '\np\n', 'A\nG\np', 'A G p\n)', 'p and q\n\n\n or r', '"a" "b"', '("a")', 'not"a"', '"a"and"b"']
+    deep += ['\u00e9 p and', 'p and \u00e9', '\u00e9\u00e9\u00e9 (p', '"\u00e9" and )', '\x0c', '\x0b p', 'p \x0b', '\u00a0p', 'p\u200b',
+             'p \u2028 and q', '\ufeffp', 'a' * 5000, 'a' * 5000 + ' and', '"' + 'a' * 5000 + '"', '"' + 'b' * 300 + '" )',
+             '\u00e9' * 300 + ' and', 'p and ' + '\u4e2d' * 50, '\ud800', 'p \udcff', 'A G \U0001F600', 'p\x00q', '\x7f',
+             'p and q ' * 300 + '$', ('(p or q) and ' * 200) + 'p']
     for text in deep:
         for logic in LOGICS:
             inp = {'logic': logic, 'text': text}
